@@ -22,7 +22,9 @@ RULE = ('histories on one established DBusClientConnection (in-memory transport,
         'applicable event for that serial; pending-call table and virtual-clock timers equal the still-pending calls. '
         'Non-trivial = >=2 calls outstanding at once and an out-of-order, duplicate or unsolicited reply or a deadline '
         'race; distinct = distinct history JSON. The scripted peer writes replies in four spellings (canonical; unknown header field '
-        'first; descending field order with an unknown field in the middle; unknown variant-typed field plus flag bit 0x4).')
+        'first; descending field order with an unknown field in the middle; unknown variant-typed field plus flag bit 0x4). '
+        'close_req: the application asks for the close and the transport lingers (replies keep arriving until the loss); sync '
+        'calls are answered by a peer in the same process while transport.write() is still on the stack.')
 ASSUMPTIONS = ['timeout=0 / 0.0 / None all mean "no deadline" (what callRemote documents and does); all three spellings are generated',
                'user callbacks attached by the harness do not raise or re-enter']
 
@@ -106,13 +108,22 @@ def run_history(case):
     token = [0]
     last_reply = [None]
     lost = False
+    closing = False
     try:
         rig.sent_messages()
         for opi, op in enumerate(case['ops']):
             kind = op[0]
             where = 'op %d %s' % (opi, kind)
-            if kind == 'call':
-                if lost:
+            if kind == 'close_req':
+                # the application asks for the connection to be closed; the transport has not closed it yet (its write
+                # buffer drains, the peer has not answered the FIN): what still arrives is still delivered
+                if lost or closing:
+                    continue
+                closing = True
+                rig.transport.linger = True
+                rig.conn.disconnect()
+            elif kind == 'call':
+                if lost or closing:
                     continue
                 p = op[1]
                 c = _Call()
@@ -127,6 +138,14 @@ def run_history(case):
                 if not p['sig']:
                     # a call without arguments has several spellings
                     sig_arg, body = [(None, None), ('', None), ('', []), (None, [])][opi % 4]
+                sync = bool(p.get('sync')) and p['expect']
+                if sync:
+                    # a peer in the same process: its reply is delivered while transport.write() is still on the stack
+                    def answer_at_once(data, rig=rig):
+                        rig.transport.on_write = None
+                        m = R.decode_message(data)
+                        N.deliver(rig.conn, R.encode_variant(m['serial'], 2, 5000 + m['serial'], {5: m['serial']}, 's', ['sync']))
+                    rig.transport.on_write = answer_at_once
                 try:
                     d = rig.conn.callRemote('/o', 'M', interface='a.b', destination='c.d',
                                             signature=sig_arg, body=body, expectReply=p['expect'],
@@ -134,6 +153,8 @@ def run_history(case):
                 except Exception as e:
                     out.append(Disc(exc_key(e, 'callRemote'), exc_detail(e)))
                     break
+                finally:
+                    rig.transport.on_write = None
                 d.addBoth(c.results.append)
                 sent = [m for k, m in rig.sent_messages() if k == 'msg']
                 if len(sent) != 1:
@@ -144,6 +165,8 @@ def run_history(case):
                     out.append(Disc('serial-reused', str(c.serial)))
                 if not p['expect']:
                     c.expected = ('value', None)
+                elif sync:
+                    c.expected = _reply_outcome(c, 's', ['sync'])
                 elif p['timeout']:
                     c.deadline = rig.clock.seconds() + p['timeout']
                 calls.append(c)
@@ -293,6 +316,8 @@ def classify_history(case):
                 interesting = True
         elif op[0] == 'lose':
             labels.append('lose')
+        elif op[0] == 'close_req':
+            labels.append('close_requested')
         elif op[0] == 'reply2':
             labels.append('second_connection')
     if maxout >= 2:
@@ -315,7 +340,8 @@ def history(draw, tier):
     n = draw(st.integers(2, 25))
     for _ in range(n):
         k = draw(st.sampled_from(['call', 'call', 'call', 'reply', 'reply', 'reply', 'error', 'advance', 'dup', 'noise',
-                                  'reply2', 'lose' if draw(st.integers(0, 5)) == 0 else 'reply']))
+                                  'reply2', 'lose' if draw(st.integers(0, 5)) == 0 else 'reply',
+                                  'close_req' if draw(st.integers(0, 3)) == 0 else 'call']))
         if k == 'noise':
             ops.append(['noise', draw(st.sampled_from(['signal', 'call'])), draw(st.integers(0, 3))])
             continue
@@ -323,7 +349,8 @@ def history(draw, tier):
             sig, trees = draw(_small_body)
             rs = draw(st.sampled_from(['unchecked', 'unchecked', 'matching', 'mismatching', 'prefix', 'empty']))
             ops.append(['call', {'sig': sig, 'trees': trees, 'timeout': draw(st.sampled_from([None, None, 1, 2, 5, 0.5, 0, 0.0])),
-                                 'rs': rs, 'rs_value': None, 'expect': draw(st.integers(0, 6)) != 0}])
+                                 'rs': rs, 'rs_value': None, 'expect': draw(st.integers(0, 6)) != 0,
+                                 'sync': draw(st.integers(0, 5)) == 0}])
         elif k in ('reply', 'reply2'):
             sig, trees = draw(_small_body)
             ops.append([k, draw(st.one_of(st.integers(0, 30), st.just(-1))),
@@ -361,6 +388,8 @@ def _fix_rs(case):
                 first_reply[t] = sig
     for i, c in enumerate(calls):
         sig = first_reply.get(i, 's')
+        if c.get('sync') and c['expect']:
+            sig = 's'       # answered at once by the synchronous peer
         if c['rs'] == 'matching':
             c['rs_value'] = sig
             if not sig:
